@@ -142,6 +142,11 @@ def run(ctx, n):
         else:
             tw = rng.choice([t for t in (16, 32, 64) if t != w])
             cases.append((w, f"to{tw}", (rand_pattern(rng, w),)))
+    return run_cases(ctx, cases)
+
+
+def run_cases(ctx, cases):
+    """compare the softfloat (Lean driver) with NumPy on explicit (width, op, operand patterns) cases"""
     lines = [f"{w} {op} {' '.join(map(str, args))}" for w, op, args in cases]
     out = ctx.lean.driver("Soft", lines)
     bad = []
